@@ -202,7 +202,7 @@ func judge(sc *Scenario, x *Exec) *Violation {
 	case EndPruned:
 		return nil
 	case EndEngine:
-		panic(EngineError{x.EndInfo})
+		panic(EngineError{sc.Name + ": " + x.EndInfo})
 	case EndCrash:
 		return mk("crash", x.EndInfo)
 	}
